@@ -104,6 +104,7 @@ class Uni:
         kinds = {'ship:%s' % t: [(item, self.res[t])] for t in T}
         kinds['ship:all'] = [(item, self.res[t]) for t in T]
         kinds['rahres'] = [(dom, self.res[t]) for t in T]
+        kinds.update({'rahres:%s' % t: [(dom, self.res[t])] for t in T})
         kinds['shift'] = [(dom, self.shift)]
         kinds['cyc'] = [(dom, self.cyc)]
         for kind, tgts in kinds.items():
@@ -178,7 +179,7 @@ def running(r):
 def rah_inputs(cfg, r):
     """(base resonances, shift attribute, cycle time in s) the simulator reads for hardener r."""
     imps = cfg['imps']
-    base = [pm(v, imps.get('rahres')) for v in r['v']]
+    base = [pm(pm(v, imps.get('rahres:%s' % t)), imps.get('rahres')) for t, v in zip(T, r['v'])]
     shift = None if r['shift'] is None else pm(r['shift'], imps.get('shift'))
     if r['cyc'] is None:
         dur = None
@@ -393,7 +394,7 @@ class Run:
             else:
                 for pos, i in enumerate(order_after):
                     base, shift, dur = rah_inputs(cfg, cfg['rahs'][i])
-                    if kind == 'rahres':
+                    if kind.startswith('rahres'):
                         self.emit('base %d %s' % (pos, qv(base)))
                     elif kind == 'shift':
                         self.emit('shift %d %s' % (pos, qo(shift)))
@@ -603,7 +604,7 @@ class Gen:
             v = [r.choice(pool)] * 4 if mode < 0.25 else [r.choice(pool) for _ in range(4)]
             if 0.25 <= mode < 0.35:
                 v[r.randrange(4)] = 1.0
-            if sum(v) * 0.9375 > 3.0001:         # stays above 3 under every 'rahres' implant
+            if sum(v) * 0.9375 - 0.0625 > 3.0001:         # stays above 3 under every 'rahres' implant combination
                 return v
 
     def ship(self):
@@ -669,7 +670,7 @@ class Gen:
             if k == 'defp':
                 return {'op': 'defp', 'p': self.profile()}
             if k == 'imp':
-                kind = r.choice(['ship:%s' % r.choice(T), 'ship:all', 'rahres', 'shift', 'cyc'])
+                kind = r.choice(['ship:%s' % r.choice(T), 'ship:all', 'rahres', 'rahres:%s' % r.choice(T), 'shift', 'cyc'])
                 if kind in cfg['imps'] and r.random() < 0.6:
                     return {'op': 'imp', 'k': kind, 'v': None}
                 return {'op': 'imp', 'k': kind, 'v': r.choice(MULT[kind.split(':')[0]])}
@@ -839,7 +840,7 @@ def correspondence(ctx):
     rep.rules.append(RULE)
     hists = list(WITNESS_K2) + malformed_histories()
     rnd = ctx.sub_rnd('corr')
-    hists += [gen_history(rnd) for _ in range(ctx.n(220, 4000))]
+    hists += [gen_history(rnd) for _ in range(ctx.n(110, 2400))]
     for r in run_batch(rep, hists, laws=False, fresh=False):
         account(rep, r)
 
@@ -853,7 +854,7 @@ def oracle(ctx):
     """The property itself on the real code: laws at every read, and equality with a fresh build."""
     rep = ctx.report
     rnd = ctx.sub_rnd('oracle')
-    hists = list(WITNESS_K2) + [gen_history(rnd) for _ in range(ctx.n(160, 3000))]
+    hists = list(WITNESS_K2) + [gen_history(rnd) for _ in range(ctx.n(80, 1800))]
     for h in hists:
         run = Run(h).execute()
         report_findings(rep, run)
